@@ -505,6 +505,9 @@ func (ex *Exec) assumeLoaded(st *State, v Val) {
 		if v.T == "" || v.P != nil {
 			return
 		}
+		if st.callResult {
+			return // a callee may return an object it allocated itself
+		}
 		alts := []string{sx("alive0", v.T), sx("=", v.T, "nil")}
 		for _, f := range st.fresh {
 			alts = append(alts, sx("=", v.T, f))
@@ -515,8 +518,12 @@ func (ex *Exec) assumeLoaded(st *State, v Val) {
 		for _, f := range st.fresh {
 			alts = append(alts, sx("=", slArr(v.T), f))
 		}
+		origin := smtOr(alts...)
+		if st.callResult {
+			origin = "true" // a callee may return a backing array it allocated itself
+		}
 		st.assume(smtAnd(
-			smtOr(alts...),
+			origin,
 			sx("bvsle", bv64(0), slLen(v.T)), sx("bvsle", slLen(v.T), slCap(v.T)),
 			sx("bvult", slCap(v.T), bv64(1<<48)),
 			sx("bvult", slOff(v.T), "#x8000000000000000"),
